@@ -3,10 +3,12 @@ package main
 import (
 	"fmt"
 	"math"
+	"math/big"
 	"strings"
 
 	"github.com/zclconf/go-cty/cty"
 	"github.com/zclconf/go-cty/cty/function"
+	"github.com/zclconf/go-cty/cty/function/stdlib"
 	"verifharness/internal/cq"
 	"verifharness/internal/gv"
 	"verifharness/internal/rng"
@@ -128,6 +130,30 @@ func modelable(args []cty.Value) bool {
 		}
 	}
 	return true
+}
+
+// hugeCount: an integer argument beyond 2^24 to a function that also takes strings or collections is a count,
+// an offset or a width; the Gallina references build lists of that length, so such calls are decided on the
+// implementation alone (C11 runs them)
+func hugeCount(args []cty.Value) bool {
+	allNum, huge := true, false
+	for _, a := range args {
+		if a.Type() != cty.Number {
+			allNum = false
+			continue
+		}
+		if a.IsKnown() && !a.IsNull() {
+			u, _ := a.Unmark()
+			f := u.AsBigFloat()
+			if f.IsInf() {
+				continue
+			}
+			if g := new(big.Float).Abs(f); g.Cmp(big.NewFloat(1<<24)) > 0 {
+				huge = true
+			}
+		}
+	}
+	return huge && !allNum
 }
 
 func stdName(name string) (string, bool) {
@@ -276,6 +302,8 @@ func corpus11() []call11 {
 		{"Substr", []cty.Value{s("hello"), n(-2), n(0)}}, {"Format", []cty.Value{s("%.0s|"), s("abc")}},
 		{"To(object)", []cty.Value{cty.UnknownVal(cty.DynamicPseudoType)}}, {"To(object)", []cty.Value{cty.UnknownVal(optObj.WithoutOptionalAttributesDeep())}},
 		{"Lookup", []cty.Value{cty.ObjectVal(map[string]cty.Value{"a": n(1)}), s("a").Mark("m"), n(0)}},
+		{"BytesSlice", []cty.Value{stdlib.BytesVal([]byte("abc")), n(1), n(math.MaxInt64)}},
+		{"BytesSlice", []cty.Value{stdlib.BytesVal([]byte("abc")), n(3), n(math.MaxInt64 - 2)}},
 	}
 }
 
@@ -460,6 +488,11 @@ func corpus12() []call12 {
 			[]cty.Value{cty.SetVal([]cty.Value{cty.TupleVal([]cty.Value{n(1), n(2)})}), cty.TupleVal([]cty.Value{cty.UnknownVal(cty.Number), n(2)})}},
 		{"Contains", []cty.Value{cty.SetVal([]cty.Value{cty.ListVal([]cty.Value{n(1)})}), cty.ListVal([]cty.Value{n(1)})},
 			[]cty.Value{cty.SetVal([]cty.Value{cty.ListVal([]cty.Value{n(1)})}), cty.ListVal([]cty.Value{cty.UnknownVal(cty.Number)})}},
+		// a null of a collection or structural type, weakened to an unknown that may still be null
+		{"JSONEncode", []cty.Value{cty.NullVal(cty.List(cty.String))}, []cty.Value{cty.UnknownVal(cty.List(cty.String))}},
+		{"JSONEncode", []cty.Value{cty.NullVal(cty.EmptyObject)}, []cty.Value{cty.UnknownVal(cty.EmptyObject)}},
+		{"JSONEncode", []cty.Value{cty.NullVal(cty.Map(cty.Number))}, []cty.Value{cty.UnknownVal(cty.Map(cty.Number))}},
+		{"JSONEncode", []cty.Value{cty.NullVal(cty.Tuple([]cty.Type{cty.Bool}))}, []cty.Value{cty.UnknownVal(cty.Tuple([]cty.Type{cty.Bool}))}},
 	}
 }
 
